@@ -17,18 +17,27 @@ from .common import IT_ENGINE, LEAF, MARKER, OPREL, Ctx, describe, new_run
 
 LEVEL = "other"
 LEVEL_TEXT = (
-    "The property as a whole (every executed row count lies within [min_rows, max_rows] for every input) is a numeric "
-    "statement about runtime values and is NOT decided.  Decided are its structural necessary conditions: the "
-    "triviality flags are defined exactly (join identity <=> no columns and min = max = 1; trivial <=> that or max = 0) "
-    "and their consumers use them the right way round; every node's bounds and columns are computed by its operation "
-    "from its actual operand(s), in operand order, and markers delegate to their target; lower bounds are computed from "
-    "operands' lower bounds only and upper bounds from upper bounds only, using both operands of a binary operation; "
-    "the column effect of every operation matches the reference (calculation adds its tag, projection keeps its columns, "
-    "join unions, everything else passes columns through); the bounds of order/column-only operations are the target's "
-    "own; and leaves reject max_rows < min_rows."
+    "The property as a whole (every executed row count lies within [min_rows, max_rows] and every row has the node's "
+    "columns, for every input) quantifies over runtime rows and is NOT decided as such.  Decided are the clauses that "
+    "are visible in the source: (1) the row-bound formulas applied_min_rows/applied_max_rows of every operation are sound "
+    "for that operation's bag semantics (reference table in sa/rules/bounds.py) - the formulas are read from the source "
+    "and evaluated by the checker's own evaluator over every combination of small operand bounds (0..4 and None), actual "
+    "row counts, slice windows and the column/no-column cases, which realises every ordering and every None/0/1/many case "
+    "of the quantities they compare; (2) the invariance flags promise no more than the reference semantics gives; (3) the "
+    "triviality flags are defined exactly (join identity <=> no columns and min = max = 1; trivial <=> that or max = 0, "
+    "compared as Boolean functions) and their consumers use them the right way round; (4) every node's bounds and "
+    "columns are computed by its operation from its actual operand(s), in operand order, markers delegate to their target "
+    "and a re-applied marker carries exactly the payload it is given; (5) bound provenance (lower bounds from lower "
+    "bounds, upper from upper, both operands of a binary operation); (6) the column effect of every operation matches "
+    "the reference, exactly over Venn regions for the set formulas; (7) leaves reject max_rows < min_rows."
 )
-LEVEL_NOTE = "Not decided: the arithmetic of Slice/Deduplication/Join/Chain bounds for particular values.  Trusted: leaf bounds declared by the caller."
-TECHNIQUE = "definition/consumer shape rules + provenance (which operand bounds a formula reads) on ast paths"
+LEVEL_NOTE = (
+    "Bounded, not a proof: the bound formulas are decided for operand bounds/row counts up to a small grid (all orderings "
+    "of the compared quantities), not for all integers; a formula leaving the evaluator's fragment (+ - * min max, "
+    "comparisons, None tests, conditionals, delegation between operations) is reported as an analysis error, never passed.  "
+    "Trusted: leaf bounds and columns declared by the caller; the reference bag semantics table."
+)
+TECHNIQUE = "finite-domain evaluation of bound formulas read from the ast against a reference semantics table + Boolean-function comparison of flag definitions + provenance/shape rules on ast paths"
 
 PASS_THROUGH = ("Calculation", "Projection", "Sort", "Identity")
 
